@@ -158,18 +158,21 @@ func expectedPrefix(script []string, s int, n int) []byte {
 	var off int64
 	open := true
 	for _, t := range script {
-		switch {
-		case t[0] == "oe"[s] && open:
-			k, _ := strconv.ParseInt(t[1:], 10, 64)
-			off += k
-		case t[0] == "OE"[s] && open:
-			lit, _ := hex.DecodeString(t[1:])
-			for i, c := range lit {
-				if off+int64(i) < int64(n) {
-					b[off+int64(i)] = c
+		if ws, k, ok := tokWrite(t); ok {
+			if ws == s && open {
+				if t[0] == 'O' || t[0] == 'E' {
+					lit, _ := hex.DecodeString(t[1:])
+					for i, c := range lit {
+						if off+int64(i) < int64(n) {
+							b[off+int64(i)] = c
+						}
+					}
 				}
+				off += k
 			}
-			off += int64(len(lit))
+			continue
+		}
+		switch {
 		case t[0] == 'c' && t[1] == "oe"[s]:
 			open = false
 		case t[0] == 'x' || t[0] == 'k':
@@ -177,6 +180,37 @@ func expectedPrefix(script []string, s int, n int) []byte {
 		}
 	}
 	return b
+}
+
+// tokWrite: is the token one that puts bytes on a stream (by whatever route), on which stream, how many
+//
+//	o<N> e<N>            plain write of pattern bytes on descriptor 1 / 2
+//	O<hex> E<hex>        literal bytes
+//	r<s><via><mode><N>   re-open the stream by path (via d: /dev/stdout|/dev/stderr, p: /proc/self/fd/1|2) with
+//	                     mode w (O_WRONLY), t (+O_TRUNC), a (+O_APPEND), c (shell ">": +O_CREAT|O_TRUNC),
+//	                     A (shell ">>": +O_CREAT|O_APPEND), write N pattern bytes through it, close it
+//	g<s><N>              a grandchild that inherited the descriptors writes N pattern bytes; the child waits for it
+func tokWrite(t string) (s int, n int64, ok bool) {
+	str := func(c byte) int {
+		if c == 'e' || c == 'E' {
+			return 1
+		}
+		return 0
+	}
+	switch t[0] {
+	case 'o', 'e':
+		n, _ = strconv.ParseInt(t[1:], 10, 64)
+		return str(t[0]), n, true
+	case 'O', 'E':
+		return str(t[0]), int64(len(t)-1) / 2, true
+	case 'r':
+		n, _ = strconv.ParseInt(t[4:], 10, 64)
+		return str(t[1]), n, true
+	case 'g':
+		n, _ = strconv.ParseInt(t[2:], 10, 64)
+		return str(t[1]), n, true
+	}
+	return 0, 0, false
 }
 
 func showStream(v interface{}, present bool, s int, script []string) string {
@@ -291,26 +325,19 @@ func oracle(in input) string {
 	var total [2]int64
 	open := [2]bool{true, true}
 	rv := 0
+	// Whatever the route by which bytes reach a stream (descriptor 1/2, the stream re-opened by path
+	// with any flags, a grandchild that inherited it; an lseek attempt in between), the demand is the
+	// same: the capture is the concatenation, in order, of everything written to the stream.
 	for _, t := range in.Script {
+		if ws, k, ok := tokWrite(t); ok {
+			if open[ws] {
+				total[ws] += k
+			}
+			continue
+		}
 		n, _ := strconv.ParseInt(t[1:], 10, 64)
 		done := false
 		switch t[0] {
-		case 'o':
-			if open[0] {
-				total[0] += n
-			}
-		case 'e':
-			if open[1] {
-				total[1] += n
-			}
-		case 'O': // literal bytes: every one of them is part of the output, whatever its value
-			if open[0] {
-				total[0] += int64(len(t)-1) / 2
-			}
-		case 'E':
-			if open[1] {
-				total[1] += int64(len(t)-1) / 2
-			}
 		case 'c':
 			if t[1] == 'o' {
 				open[0] = false
@@ -337,15 +364,11 @@ func coqProg(in input) string {
 loop:
 	for _, t := range in.Script {
 		arg := t[1:]
+		if ws, k, ok := tokWrite(t); ok {
+			acts = append(acts, "CWrite "+[]string{"SOut", "SErr"}[ws]+" "+strconv.FormatInt(k, 10))
+			continue
+		}
 		switch t[0] {
-		case 'o':
-			acts = append(acts, "CWrite SOut "+arg)
-		case 'e':
-			acts = append(acts, "CWrite SErr "+arg)
-		case 'O':
-			acts = append(acts, "CWrite SOut "+strconv.Itoa(len(arg)/2))
-		case 'E':
-			acts = append(acts, "CWrite SErr "+strconv.Itoa(len(arg)/2))
 		case 'c':
 			if arg == "o" {
 				acts = append(acts, "Close SOut")
@@ -423,8 +446,7 @@ func gen(r *lib.Rng, tier string) []gcase {
 		// model parameters: the theorems say the result does not depend on them
 		var bytes int64
 		for _, t := range script {
-			if t[0] == 'o' || t[0] == 'e' {
-				n, _ := strconv.ParseInt(t[1:], 10, 64)
+			if _, n, ok := tokWrite(t); ok {
 				bytes += n
 			}
 		}
@@ -595,11 +617,30 @@ func gen(r *lib.Rng, tier string) []gcase {
 		}
 	}
 
+	// the command re-opens its own stream by path and writes through the new descriptor (the shell's
+	// "echo msg > /dev/stderr"), tries to seek on its descriptor, hands the descriptors to a grandchild
+	add("reopen-stream", R, child, inh, "o10", "e19", "rodc8", "redc14", "rodA5", "o4", "x2") // the shell idiom
+	add("reopen-stream", R, child, inh, "o100", "rodw30", "o7", "e50", "redw20", "e3")
+	add("reopen-stream", R, child, "plain", "o1000", "ropt400", "o10", "e1000", "rept400", "e10", "x1")
+	add("reopen-stream", R, child, inh, "o64", "roda64", "o64", "ropa64", "o64", "e9", "repA9", "e9")
+	add("reopen-stream", R, child, inh, "o100000", "rodc50000", "o7", "e70000", "redt70000", "e7")
+	add("reopen-stream", R, child, inh, "rodc12", "redc12") // first output of all through the re-opened path
+	add("reopen-stream", I, child, inh, "o10", "rodc8", "e5", "redc6", "o3")
+	add("reopen-stream", "RunInspections", child, "plain", "e10", "repc8", "o5", "ropt6", "e3", "x0")
+	add("seek-attempt", R, child, inh, "o1000", "lo", "o500", "e300", "le", "e20", "x4")
+	add("seek-attempt", R, child, inh, "e70000", "le", "e10", "o5", "lo", "o5")
+	add("seek-attempt", I, child, "space", "o100", "lo", "o1")
+	add("grandchild-writes", R, child, inh, "o10", "go20", "o5", "e10", "ge70000", "e1", "x3")
+	add("grandchild-writes", R, child, inh, "go100000", "ge100000")
+	add("grandchild-writes", I, child, inh, "e5", "ge5", "go5", "o5")
+	add("grandchild-writes", R, child, inh, "o10", "go10", "rodc10", "lo", "o10", "k15")
+
 	// --- random interleavings ---
 	for i := 0; i < nRandom; i++ {
 		rr := r.Fork()
 		var script []string
 		budget := [2]int64{0, 0}
+		closed := [2]bool{false, false}
 		lim := maxSz
 		switch rr.Intn(4) {
 		case 0:
@@ -627,9 +668,22 @@ func gen(r *lib.Rng, tier string) []gcase {
 				k = lim - budget[s]
 			}
 			budget[s] += k
-			script = append(script, string("oe"[s])+sz(k))
+			tok := string("oe"[s]) + sz(k)
+			if !closed[s] { // other routes to the same stream (never after an own close: the path is gone)
+				switch rr.Intn(16) {
+				case 0, 1:
+					tok = "r" + string("oe"[s]) + string("dp"[rr.Intn(2)]) + string("wtacA"[rr.Intn(5)]) + sz(k)
+				case 2:
+					tok = "g" + string("oe"[s]) + sz(k)
+				case 3:
+					script = append(script, "l"+string("oe"[s]))
+				}
+			}
+			script = append(script, tok)
 			if rr.Chance(1, 25) {
-				script = append(script, []string{"co", "ce"}[rr.Intn(2)])
+				c := rr.Intn(2)
+				closed[c] = true
+				script = append(script, []string{"co", "ce"}[c])
 			}
 			if rr.Chance(1, 40) {
 				script = append(script, "s"+strconv.Itoa(rr.Range(1, 20)))
@@ -660,12 +714,13 @@ func stderrBeforeStdoutEOF(script []string) int64 {
 	var e int64
 	errOpen := true
 	for _, t := range script {
-		switch t[0] {
-		case 'e':
-			if errOpen {
-				n, _ := strconv.ParseInt(t[1:], 10, 64)
+		if ws, n, ok := tokWrite(t); ok {
+			if ws == 1 && errOpen {
 				e += n
 			}
+			continue
+		}
+		switch t[0] {
 		case 'c':
 			if t[1] == 'o' {
 				return e
@@ -683,7 +738,7 @@ func trivial(in input) bool {
 		return false
 	}
 	for _, t := range in.Script {
-		if t[0] == 'o' || t[0] == 'e' || t[0] == 'O' || t[0] == 'E' || t[0] == 'k' {
+		if _, _, ok := tokWrite(t); ok || t[0] == 'k' {
 			return false
 		}
 	}
